@@ -4,7 +4,7 @@
 // local changes listed there).  One logical thread runs at a time; the schedule is a
 // function of (seed, mode); ASan+UBSan watch the run.
 //
-//   dcfg <params> <workers> <lcp> <mode> <seed> <arg> <postyield>
+//   dcfg <params> <workers> <lcp> <mode> <seed> <arg> <flags>     flags: 1 = post-op scheduling points, 2 = race-directed
 //        mode prng: arg = stick (0..255); mode pct: arg = number of priority change points
 //   s <string> [count]
 //   dgo  -> "ok <sorted strings> | <lcp[1..]> | end=<done|stuck|limit> steps=<n> | <events>"
@@ -232,7 +232,7 @@ static void on_event(int tid, Op op, const void* obj, long long val) {
 }
 
 // ------------------------------------------------------------------ one run under the scheduler
-struct Cfg { std::string params; unsigned workers = 2; bool lcp = false; std::string mode = "prng"; uint64_t seed = 1; unsigned arg = 0; bool post_yield = true; };
+struct Cfg { std::string params; unsigned workers = 2; bool lcp = false; std::string mode = "prng"; uint64_t seed = 1; unsigned arg = 0; bool post_yield = true; unsigned window_bias = 0; unsigned flags = 1; };
 
 struct Outcome { Strs order; std::vector<uint32_t> lcp; std::string end; size_t steps = 0; std::string trace; std::vector<std::string> viol; };
 
@@ -266,11 +266,12 @@ static Outcome run_det(const Cfg& cfg, const Strs& in) {
     S.stick = cfg.mode == "prng" ? cfg.arg : 0;
     S.pct_depth = cfg.mode == "pct" ? (cfg.arg ? cfg.arg : 1) : 0;
     S.pct_horizon = 50 + 40 * n;
+    S.window_bias = cfg.window_bias;
     c04d::hw = cfg.workers; c04d::post_yield = cfg.post_yield;
     c04d::atomic_ctor_hook = on_ctor; c04d::atomic_dtor_hook = on_dtor;
     S.on_event = on_event;
     g_cur_sched = cfg.params + " workers=" + std::to_string(cfg.workers) + " lcp=" + std::to_string(cfg.lcp) + " " + cfg.mode +
-                  " seed=" + std::to_string(cfg.seed) + " arg=" + std::to_string(cfg.arg) + " postyield=" + std::to_string(cfg.post_yield);
+                  " seed=" + std::to_string(cfg.seed) + " arg=" + std::to_string(cfg.arg) + " flags=" + std::to_string(cfg.flags);
     bool rest_ok = true;
     auto body = [&]() {
         // parallel_sample_sort_base with the requested number of workers (= hardware_concurrency() of the shim)
@@ -319,6 +320,47 @@ static Outcome run_det(const Cfg& cfg, const Strs& in) {
         if (!t.empty()) os << (os.tellp() > 0 ? " " : "") << ev.tid << ":" << t;
     }
     R.trace = os.str();
+    // direct oracle on the phase protocol of the big steps: `pwork_ = parts_` (sample() -> count jobs,
+    // count_finished() -> distribute jobs) happens exactly twice per step, each time while no job of
+    // the previous phase is outstanding, and each phase sees exactly `parts_` decrements, the last one
+    // to 0 -- i.e. sample(), count_finished() and distribute_finished() each run exactly once per step.
+    {
+        struct Ph { long long parts = 0, cur = 0; int stores = 0, zeros = 0; bool bad = false; };
+        std::map<int, Ph> ph;
+        for (auto& ev : recorder.evs) {
+            if (ev.kind == 'I') { ph[ev.obj].parts = ev.val; continue; }
+            if (ev.kind != 'W' && ev.kind != 'D') continue;
+            Ph& p = ph[ev.obj];
+            if (p.bad) continue;
+            std::string who = "big step " + std::to_string(ev.obj) + " (thread " + std::to_string(ev.tid) + ")";
+            if (ev.kind == 'W') {
+                if (p.cur != 0) {
+                    R.viol.push_back("phase transition ran twice: pwork_ of " + who + " re-armed to " + std::to_string(ev.val) + " while " +
+                                     std::to_string(p.cur) + " jobs of the running phase are outstanding (count_finished()/sample() executed more than once)");
+                    p.bad = true; continue;
+                }
+                if (++p.stores > 2) {
+                    R.viol.push_back("phase transition ran twice: third `pwork_ = parts_` of " + who + " (count_finished() executed more than once)");
+                    p.bad = true; continue;
+                }
+                if (ev.val != p.parts) { R.viol.push_back("pwork_ of " + who + " armed with " + std::to_string(ev.val) + " != parts_"); p.bad = true; continue; }
+                p.cur = ev.val;
+            } else {
+                if (p.cur <= 0 || ev.val != p.cur - 1) {
+                    R.viol.push_back("pwork_ of " + who + " decremented to " + std::to_string(ev.val) + " from " + std::to_string(p.cur) +
+                                     " (more part jobs finished than were started in this phase)");
+                    p.bad = true; continue;
+                }
+                p.cur = ev.val;
+                if (p.cur == 0) ++p.zeros;
+            }
+        }
+        if (e == detsched::End::Done)
+            for (auto& kv : ph)
+                if (kv.second.parts > 0 && !kv.second.bad && (kv.second.stores != 2 || kv.second.zeros != 2))
+                    R.viol.push_back("big step " + std::to_string(kv.first) + " went through " + std::to_string(kv.second.stores) +
+                                     " phase starts and " + std::to_string(kv.second.zeros) + " phase completions (expected 2 and 2: count, distribute)");
+    }
     if (e == detsched::End::Done) {
         for (auto& c : recorder.ctr) R.viol.push_back("sort step " + std::to_string(c.second) + " still alive after loop_until_empty()");
         std::vector<unsigned char*> after(arr.get(), arr.get() + n), b2 = before, a2 = after;
@@ -381,23 +423,34 @@ int main(int argc, char** argv) {
     __asan_set_error_report_callback(asan_report);
 #endif
     std::string line;
-    Strs input; Cfg cfg; Runner runner = nullptr;
+    Strs input; std::string prefix; Cfg cfg; Runner runner = nullptr;
     while (std::getline(std::cin, line)) {
         auto t = vh::tokens(line);
         if (t.empty()) { vh::answer(""); continue; }
         if (t[0][0] == '#') { vh::answer(line); continue; }
-        if (t[0] == "case") { input.clear(); runner = nullptr; vh::answer("case"); continue; }
+        if (t[0] == "case") { input.clear(); prefix.clear(); runner = nullptr; vh::answer("case"); continue; }
+        if (t[0] == "px" && t.size() == 3) {
+            std::string pat; size_t len = strtoull(t[2].c_str(), nullptr, 10);
+            if (!parse_str(t[1], pat) || pat.empty() || len > 100000) { vh::answer("bad-op"); continue; }
+            prefix.clear();
+            while (prefix.size() < len) prefix += pat;
+            prefix.resize(len);
+            vh::answer("ok"); continue;
+        }
         if (t[0] == "dcfg" && t.size() == 8) {
             runner = find_runner(t[1]);
             cfg.params = t[1]; cfg.workers = atoi(t[2].c_str()); cfg.lcp = t[3] == "1"; cfg.mode = t[4];
-            cfg.seed = strtoull(t[5].c_str(), nullptr, 10); cfg.arg = atoi(t[6].c_str()); cfg.post_yield = t[7] == "1";
+            cfg.seed = strtoull(t[5].c_str(), nullptr, 10); cfg.arg = atoi(t[6].c_str());
+            // flags: bit 0 = scheduling point after every atomic write / unlock, bit 1 = race-directed scheduling
+            // (check-then-act windows on one atomic, see sched.hpp `window_bias`)
+            cfg.flags = atoi(t[7].c_str()); cfg.post_yield = cfg.flags & 1; cfg.window_bias = (cfg.flags & 2) ? 144 : 0;
             if (!runner || cfg.workers < 1 || cfg.workers > 8 || (t[3] != "0" && t[3] != "1") || (cfg.mode != "prng" && cfg.mode != "pct") ||
-                cfg.arg > 255 || (t[7] != "0" && t[7] != "1")) { runner = nullptr; vh::answer("bad-op"); continue; }
+                cfg.arg > 255 || (t[7] != "0" && t[7] != "1" && t[7] != "2" && t[7] != "3")) { runner = nullptr; vh::answer("bad-op"); continue; }
             vh::answer("ok");
         } else if (t[0] == "s" && (t.size() == 2 || t.size() == 3)) {
             std::string s; size_t cnt = t.size() == 3 ? strtoull(t[2].c_str(), nullptr, 10) : 1;
             if (!parse_str(t[1], s) || cnt < 1 || cnt > 10000) { vh::answer("bad-op"); continue; }
-            for (size_t i = 0; i < cnt; ++i) input.push_back(s);
+            for (size_t i = 0; i < cnt; ++i) input.push_back(prefix + s);
             vh::answer("ok");
         } else if (t[0] == "dgo" && t.size() == 1) {
             if (!runner) { vh::answer("bad-op"); continue; }
